@@ -44,6 +44,8 @@ Inductive gevent :=
 | GTimeout (h cid : nat)           (* the node answers a waitsendpay that carried a timeout with "timed out" while the part is still
                                      pending: a legitimate reply (code 200), not a fault. The unchanged plugin never passes a timeout,
                                      so this event occurs only in traces of changed code (DESIGN 0, "Out of vocabulary") *)
+| GHang (uid : N)                  (* the handler task of one held HTLC goes away (its listener is closed): nothing happens in the
+                                     plugin; from now on no response can be observed for this HTLC *)
 | GTick (dt : N)
 | GHeight (v : N)
 | GCrash.
@@ -122,6 +124,7 @@ Definition gstep (w : world) (g : gsys) (ev : gevent) (sel : bool) : gsys * list
   | GTimeout h cid =>
       (* for the plugin model an error reply to the wait, without effect on the node *)
       let '(s', o) := step (w_cfg w) (get_comp g h) (EvProcess cid Rejected) in (put_comp g h s', map (lift_out h) o)
+  | GHang _ => (g, [])
   | GTick dt =>
       let '(cs, o) := map_comps (fun s => step (w_cfg w) s (EvTick dt)) g in
       ({| comps := cs; gnow := gnow g + dt; gheight := gheight g |}, o)
@@ -232,15 +235,21 @@ Definition model_reply (g g' : gsys) (ev : gevent) : option (option reply) :=
    first step whose node reply differs (0 = none), number of steps replayed *)
 Record corr := { k_out : N; k_reply : N; k_steps : N; k_final : gsys }.
 
-Fixpoint replay (w : world) (g : gsys) (tr : list tstep) (i : N) (acc : corr) : corr :=
+(* responses the model addresses to an HTLC whose handler has gone away cannot be observed *)
+Definition drop_hung (hung : list N) (o : list gout) : list gout :=
+  filter (fun x => match x with GResp u _ => negb (existsb (N.eqb u) hung) | _ => true end) o.
+
+Fixpoint replay (w : world) (g : gsys) (tr : list tstep) (i : N) (hung : list N) (acc : corr) : corr :=
   match tr with
   | [] => {| k_out := k_out acc; k_reply := k_reply acc; k_steps := i; k_final := g |}
   | st :: r =>
+      let hung := match t_ev st with GHang u => u :: hung | GCrash => [] | _ => hung end in
       let '(g1, o1) := gstep w g (t_ev st) true in
+      let o1 := drop_hung hung o1 in
       let '(g', ok) :=
         if outs_match o1 (t_out st) then (g1, true)
         else let '(g2, o2) := gstep w g (t_ev st) false in
-             if outs_match o2 (t_out st) then (g2, true) else (g1, false) in
+             if outs_match (drop_hung hung o2) (t_out st) then (g2, true) else (g1, false) in
       if negb ok then {| k_out := i + 1; k_reply := k_reply acc; k_steps := i; k_final := g |}
       else
         let rep_ok := match t_reply st, model_reply g g' (t_ev st) with
@@ -251,7 +260,7 @@ Fixpoint replay (w : world) (g : gsys) (tr : list tstep) (i : N) (acc : corr) : 
                       end in
         let acc' := if rep_ok || negb (k_reply acc =? 0) then acc
                     else {| k_out := k_out acc; k_reply := i + 1; k_steps := 0; k_final := g |} in
-        replay w g' r (i + 1) acc'
+        replay w g' r (i + 1) hung acc'
   end.
 
 Definition corr0 := {| k_out := 0; k_reply := 0; k_steps := 0; k_final := gsys0 |}.
@@ -262,4 +271,4 @@ Definition ginit (w : world) : gsys :=
                                        pl := {| entry_ := None; lcs := [];
                                                 next_att := match ds (snd x) with Some (DPending a _, _) => a + 1 | _ => 0 end |};
                                        calls := []; now := 0; height := 0 |})) (w_init w); gnow := 0; gheight := 0 |}.
-Definition run_corr (w : world) (tr : list tstep) : corr := replay w (ginit w) tr 0 corr0.
+Definition run_corr (w : world) (tr : list tstep) : corr := replay w (ginit w) tr 0 [] corr0.
